@@ -56,7 +56,8 @@ def sigOf (j : Json) : Except String Sig := do
 
 def subOf (j : Json) : Except String Sub := do
   pure { name := ← strOf j "name", skip := boolD j "skip" false, intro := boolD j "intro" true,
-         sig := ← sigOf (← j.getObjVal? "sig") }
+         sig := ← sigOf (← j.getObjVal? "sig"), isMethod := boolD j "method" false,
+         setProp := ← optStr j "setp", getProp := ← optStr j "getp" }
 
 def fieldOf (j : Json) : Except String Field := do
   let ty ← match j.getObjVal? "ty" with
@@ -66,7 +67,8 @@ def fieldOf (j : Json) : Except String Field := do
   pure { name := ← strOf j "name", intro := boolD j "intro" true, ty := ty, anon := anon }
 
 def propOf (j : Json) : Except String Prop' := do
-  pure { name := ← strOf j "name", intro := boolD j "intro" true, ty := ← tyOf (← j.getObjVal? "ty") }
+  pure { name := ← strOf j "name", intro := boolD j "intro" true, ty := ← tyOf (← j.getObjVal? "ty"),
+         setter := ← optStr j "setter", getter := ← optStr j "getter" }
 
 def bodyOf (j : Json) : Except String Body := do
   let k ← (← j.getObjVal? "k").getStr?
@@ -87,6 +89,17 @@ def nsOf (j : Json) : Except String NS := do
 
 def jbools (l : List Bool) : Json := Json.arr (l.map Json.bool).toArray
 def jbools2 (l : List (List Bool)) : Json := Json.arr (l.map jbools).toArray
+
+def jstr? : Option (List Char) → Json
+  | some n => jstr n
+  | none => Json.null
+
+/-- accessor names after `_introspectable_property_analysis`: per top-level node the
+    [setter, getter] of its properties and the [set-property, get-property] of its nested callables -/
+def accJson (ns1 : NS) (s : St) : List (String × Json) :=
+  let after := ns1.tops.map (accessorsAfter ns1 s.tf)
+  [("pacc", Json.arr (after.map fun r => Json.arr (r.1.map fun p => Json.arr #[jstr? p.setter, jstr? p.getter]).toArray).toArray),
+   ("macc", Json.arr (after.map fun r => Json.arr (r.2.map fun m => Json.arr #[jstr? m.setProp, jstr? m.getProp]).toArray).toArray)]
 
 def stJson (ns1 : NS) (s : St) : List (String × Json) :=
   [("tf", jbools s.tf), ("sf", jbools2 s.sf), ("ff", jbools2 s.ff), ("pf", jbools2 s.pf),
@@ -119,7 +132,7 @@ def handle (op : String) : Option Handler :=
   | "c05.validate" => some fun j => do
       let ns ← nsOf (← j.getObjVal? "ns")
       let cur := match validate ns with
-        | some (ns1, s, rounds) => Json.mkObj (stJson ns1 s ++ [("rounds", Json.num rounds)])
+        | some (ns1, s, rounds) => Json.mkObj (stJson ns1 s ++ accJson ns1 s ++ [("rounds", Json.num rounds)])
         | none => Json.null
       let (ons, os) := validateOld ns
       pure (Json.mkObj [("cur", cur), ("old", Json.mkObj (stJson ons os))])
